@@ -125,6 +125,14 @@ def acl_for(rnd, tree):
             sub = [RA.acl_rule(["~"], glob=True)] if rnd.chance(30) else acl_for(rnd, ch)
         else:
             sub = []
+        if ch and rnd.chance(25) and len(w) > 1:
+            # plus a partially overlapping rule for this very row (concrete key) with its own children
+            k2 = " ".join(w[:2])
+            if k2 not in rules and k2 != key:
+                rules[k2] = RA.acl_rule(w[:2], acl_for(rnd, ch), cd=rnd.choice([None, 0, 1]))
+            k3 = w[0] + " */[a-z0-9]+/"
+            if rnd.chance(50) and k3 not in rules:
+                rules[k3] = RA.acl_rule([w[0], "*/[a-z0-9]+/"], acl_for(rnd, ch), cd=rnd.choice([None, 0, 1]))
         if key in rules:
             have = {" ".join(r["toks"]) for r in rules[key]["children"]}
             rules[key]["children"] += [r for r in sub if " ".join(r["toks"]) not in have]
@@ -141,7 +149,7 @@ def _cases(draw):
     for i in range(rnd.randint(1, 3)):
         prog = gen_prog(rnd)
         acl = acl_for(rnd, tree_of(model_paths(prog)))
-        gens.append({"prog": prog, "acl": acl})
+        gens.append({"prog": prog, "acl": acl, "acl_indent": rnd.choice([0, 0, 4, 8, 12])})
     return {"vendor": vendor, "gens": gens}
 
 
@@ -188,7 +196,9 @@ def _make_gen(i, spec, vendor):
         yield from interp(self, spec["prog"])
 
     def acl(self, device):
-        return RA.acl_text(spec["acl"])
+        # ACL literals come with whatever base indentation the generator's source has
+        pad = " " * spec.get("acl_indent", 0)
+        return "\n" + "".join(pad + l + "\n" for l in RA.acl_lines(spec["acl"]))
     return type("VG%d" % i, (PartialGenerator,), {"run": run, "acl": acl})
 
 
@@ -261,6 +271,8 @@ def check(case):
             got = ("GeneratorError", str(cause) if isinstance(cause, AclError) else "cause=%r" % (cause,))
         except AclNotExclusiveError as e:
             got = ("AclNotExclusiveError", str(e))
+        except Exception as e:   # anything else from the code under test is reported, not a harness error
+            got = ("unexpected:" + type(e).__name__, str(e)[:200])
     if res is not None and res.err:
         got = ("err", repr(res.err))
     det["got"] = got
